@@ -4,7 +4,7 @@ and writes seeded/<id>/meta.json plus seeded/RESULTS.md.  Developer tool — not
 import json, os, re, subprocess, sys
 from concurrent.futures import ThreadPoolExecutor
 V = os.path.dirname(os.path.dirname(os.path.abspath(__file__)))
-PROPS = [f"C{i:02d}" for i in range(1, 20) if i != 16]
+PROPS = [f"C{i:02d}" for i in range(1, 20)]
 NEEDS = {
  "C01-a": "a 'transfer completed' DatasetPublished for a requested output arriving after the value was fetched and the dataset purged everywhere (>= 2 hosts, output also consumed remotely)",
  "C01-b": "a keyword edge into a parameter that also has a static value/signature default",
